@@ -1374,6 +1374,17 @@ class Interp:
         return VList(self._comp(e, fr))
 
     def ex_GeneratorExp(self, e, fr):
+        if len(e.generators) == 1 and not e.generators[0].ifs:
+            it = self.eval(e.generators[0].iter, fr)
+            if isinstance(it, VSeq):
+                g = e.generators[0]
+
+                def elem(i, _it=it):
+                    sub = Frame(fr.globs, {}, fr, fr.contract, fr.module, fr.qualname)
+                    self.assign(g.target, _it.elem(i), sub)
+                    return self.eval(e.elt, sub)
+
+                return VSeq(it.length, elem, 'genexp')
         return VList(self._comp(e, fr))
 
     def ex_SetComp(self, e, fr):
